@@ -5,7 +5,8 @@ RULE = ("histories: a random curve M on a random knot vector (generic points, so
         "random knot insertions and degree elevations in random order giving X; then clean(), or degree_clean()+knot_clean() in either order; a "
         "second, differently inflated representation Y of the same curve; idempotence.  Polynomial and rational curves.  Non-trivial: at least two "
         "inflation steps; distinct = distinct (M, history)."
-        " Also: dyadic knots with a float twin cleaned first.")
+        " Also: dyadic knots with a float twin cleaned first; minimal curves with small-integer / symmetric control points cleaned with the "
+        "default, with lossy tolerances (1e-3..1e-6) and with a tolerance of 45% of the exact cost of the cheapest single removal.")
 EXPLANATION = ("L3: `rf.eq` (cleaned curve equals the original, every u), `rf.minimal` (exact smallest degree and, per knot, the multiplicity forced "
                "by the first jumping derivative) compared with the cleaned knot vector, identical data for two representations, idempotence.  "
                "L2: cleaned state vs the model's clean loops.")
@@ -36,6 +37,8 @@ def inflate(rng, curve, steps, grid=GRID):
 def run_case(ctx, case):
     rec, drv = ctx["rec"], ctx["drv"]
     c = de(case)
+    if c.get("kind") == "special":
+        return run_special(ctx, case)
     M = (c["U"], [tuple(p) for p in c["P"]], c["W"])
     X = (c["X"]["U"], [tuple(p) for p in c["X"]["P"]], c["X"]["W"])
     order = c["order"]
@@ -103,8 +106,77 @@ def run_case(ctx, case):
             rec.violation("degree_clean / knot_clean are not idempotent", case, first=ser(Y), second=ser(curve_state(ck)))
 
 
+def run_special(ctx, case):
+    """minimal curves with small-integer / symmetric control points (special positions of the least-squares error form): clean must
+    leave a minimal representation exactly as it is; with a tolerance the change is bounded by what the accepted steps allow"""
+    rec, drv = ctx["rec"], ctx["drv"]
+    c = de(case)
+    U, P, W = c["U"], [tuple(p) for p in c["P"]], None
+    tol = c["tol"]
+    rec.case(case, nontrivial=True)
+    cx = make_curve(U, P, W)
+    sx = curve_state(cx)
+    if tol == "adaptive":
+        # a tolerance just below what the cheapest single removal really costs: measure the exact squared L2 change of every forced
+        # single-knot removal (tolerance=None) and ask for 45% of the smallest one (the library's error measure is half the squared distance)
+        costs = []
+        which_ = c["which"]
+        if which_ in ("clean", "knot_clean"):
+            for x in kv_info(U)[2][1:-1]:
+                c2 = make_curve(U, P, W)
+                if impl(lambda: c2.knot_remove([x], None))[0] != "ok":
+                    continue
+                d2 = drv.call("rf.sqdist", *curve_args(*sx), *curve_args(*curve_state(c2)))
+                if d2[0] == "ok" and frac(d2[1][0]) > 0:
+                    costs.append(frac(d2[1][0]))
+        if which_ in ("clean", "degree_clean") and kv_info(U)[0] >= 1:
+            c3 = make_curve(U, P, W)
+            if impl(lambda: c3.degree_decrease(1, None))[0] == "ok":
+                d2 = drv.call("rf.sqdist", *curve_args(*sx), *curve_args(*curve_state(c3)))
+                if d2[0] == "ok" and frac(d2[1][0]) > 0:
+                    costs.append(frac(d2[1][0]))
+        if not costs:
+            rec.count("special", "adaptive-skipped")
+            return
+        tol = min(costs) * F(9, 20)
+    rec.count("special", "default-tolerance" if tol is None else ("adaptive-tolerance" if c["tol"] == "adaptive" else "lossy-tolerance"))
+    which = c["which"]
+    fn = {"clean": lambda: cx.clean() if tol is None else cx.clean(float(tol)),
+          "knot_clean": lambda: cx.knot_clean() if tol is None else cx.knot_clean(tolerance=float(tol)),
+          "degree_clean": lambda: cx.degree_clean() if tol is None else cx.degree_clean(float(tol))}[which]
+    r = impl(fn)
+    if r[0] != "ok":
+        rec.violation("%s raised" % which, case, observed=r[1])
+        return
+    Y = curve_state(cx)
+    l3(rec, "rf.sqdist")
+    if Y == sx:
+        return
+    removed = (len(sx[0]) - kv_info(list(sx[0]))[0]) - (len(Y[0]) - kv_info(list(Y[0]))[0])
+    d = drv.call("rf.sqdist", *curve_args(*sx), *curve_args(*Y))
+    if d[0] != "ok":
+        return
+    dist2 = frac(d[1]) if not isinstance(d[1], (list, tuple)) else frac(d[1][0])
+    t = F(1, 10**9) if tol is None else tol
+    # each accepted step changes the curve by an L2 distance below sqrt(2*tolerance) (the reported error is at least half the squared
+    # distance); k steps remove at least k basis functions, so the total squared distance stays below 2*k^2*tolerance
+    k = max(1, abs(removed))
+    if dist2 > 2 * k * k * t * (1 + F(1, 10**6)):
+        rec.violation("%s changed the curve by more than the tolerance allows" % which, case, sqdist=str(dist2), removed=removed,
+                      bound=str(2 * k * k * t), cleaned=ser(Y))
+
+
 def run(ctx):
     rng = ctx["rng"]
+    for i in range(budget(ctx, 60, 800)):
+        p = rng.randint(1, 3)
+        U = rand_kv(rng, p=p, nintmax=2, maxmult=min(p, 2))
+        n = kv_info(U)[1]
+        P = [(F(rng.randint(-4, 4)),) for _ in range(n)]
+        if rng.random() < 0.4:
+            P = P[: (n + 1) // 2] + P[: n // 2][::-1]            # symmetric control polygon
+        tol = None if i % 3 == 1 else (F(1, 10 ** rng.choice([3, 4, 6])) if i % 3 == 2 else "adaptive")
+        run_special(ctx, ser(dict(kind="special", U=U, P=P, W=None, tol=tol, which=rng.choice(["clean", "knot_clean", "degree_clean"]))))
     ndy = budget(ctx, 8, 80)
     for i in range(ndy + budget(ctx, 45, 600)):
         rat = rng.random() < 0.25
